@@ -149,7 +149,10 @@ def recipe_of(req: dict) -> dict:
     t = req["sig"]
     pts = None
     if t == "expr_tri":
-        pts = req["vis"] + ("" if req["hid"] == "none" else "+" + req["hid"])
+        hid = req["hid"]
+        if hid == "eps" and req["vis"].endswith("_f32"):
+            hid = "none"      # 1e-10 is below float32 resolution: the array (hence the request) is the unperturbed one
+        pts = req["vis"] + ("" if hid == "none" else "+" + hid)
     elif t == "expr_int":
         pts = "int12" + ("" if req["hid"] == "none" else "+" + req["hid"])
     return {"tmpl": t, "n": req["n"], "pts": pts, "opt": req["opt"], "flag": req["flag"]}
@@ -368,8 +371,9 @@ def validate(events, name="trace"):
     d = tlc.stage(name, ["History", "HistoryTrace"])
     f = d / "events.json"
     f.write_text(json.dumps([slim(e) for e in events]))
-    c = consts(Proc=[], Seed=[], MaxEvents=len(events) + 1, Record=False)
-    text = cfg(c, invs=["Judge"], spec="TSpec", subst={"Proc": "TProc", "Seed": "TSeed"})
+    c = consts(Proc=sorted({e["proc"] for e in events}), Seed=sorted({e["seed"] for e in events}),
+               MaxEvents=len(events) + 1, Record=False)
+    text = cfg(c, invs=["Judge"], spec="TSpec")
     r = tlc.run(d, "HistoryTrace", cfg_text=text, workers=1, env={"HIST_FILE": str(f)}, timeout=2400, heap="6g")
     tlc.must_ok(r, f"trace validation {name}")
     at, viol, drift = 0, [], []
@@ -405,13 +409,17 @@ def _ctx_of(lives, events, where, line):
     e = events[line - 1]
     for jj, sub, cx in contexts(lives[i]):
         if jj == j:
-            cx = dict(cx, objects_before={k: e["cnt"][k] - e["made"][k] for k in e["cnt"]})
+            cx = dict(cx, objects_before={k: e["cnt"][k] - e["made"][k] for k in e["cnt"]},
+                      ids=e.get("ids", {}), id_lex_ok=e.get("id_lex_ok", True))
             return i, cx
     return i, {}
 
 
 def _label(cx1, cx2):
     """Which parts of the hidden state History.tla keeps differ between two observations."""
+    if cx1.get("id_lex_ok", True) != cx2.get("id_lex_ok", True):
+        # the ids of the meshes / constants used sort differently as numbers and as decimal strings in one of the two
+        return "id-order"
     f = []
     if cx1.get("seed") != cx2.get("seed"):
         f.append("seed")
@@ -492,6 +500,57 @@ def report(chk, own, lives, events, where, viol, texts):
             chk.note(f"(belongs to {OWNER[prop]}) {what}")
 
 
+def trace_controls(chk, own, events):
+    """Binding check: corrupt one recorded field of a copy of the (beginning of the) recorded behaviour;
+    TLC must reject exactly there with the expected property."""
+    import copy
+
+    ev = copy.deepcopy(events[:1500])
+    cases = []
+    if own == "C12":
+        seen = set()
+        for i, e in enumerate(ev):
+            if e["act"] == "Generate":
+                if e["sigkey"] in seen and not e["sha"].startswith("EXC"):
+                    cases.append((i, "Functional", "sha"))
+                seen.add(e["sigkey"])
+        cases = cases[-1:]
+    else:
+        seen, got = set(), {}
+        for i, e in enumerate(ev):
+            if e["act"] != "Name":
+                continue
+            if e["reqkey"] in seen:
+                got.setdefault("Stable", (i, "Stable", "modname"))
+            if e["hasclass"]:
+                got["ValidIdentifiers"] = (i, "ValidIdentifiers", "idc")
+                got["DistinctObjects"] = (i, "DistinctObjects", "defs")
+            seen.add(e["reqkey"])
+        cases = list(got.values())
+    done = []
+    for i, prop, field in cases:
+        bad = copy.deepcopy(ev)
+        e = bad[i]
+        if field == "sha":
+            e["sha"] = ("0" if e["sha"][0] != "0" else "1") + e["sha"][1:]
+        elif field == "modname":
+            e["modname"] = e["modname"][:-1] + ("0" if e["modname"][-1] != "0" else "1")
+        elif field == "idc":
+            e["idc"][0][3] = 45            # '-' inside an identifier
+        elif field == "defs":
+            e["defs"] = e["defs"] + [e["defs"][0]]
+            e["idc"] = e["idc"] + [e["idc"][0]]
+        viol, r = validate(bad, f"control-{prop}")
+        chk.add(states=r.distinct, transitions=r.generated)
+        if not any(line == i + 1 and p == prop for line, p, _ in viol):
+            raise MachineryError(f"negative control: corrupted {field} of event {i + 1} was not rejected as {prop} "
+                                 f"(verdicts there: {[v for v in viol if v[0] == i + 1]})")
+        done.append(f"trace:{field}->{prop}@{i + 1}")
+    chk.add(controls_rejected=done)
+    if not done:
+        chk.note("no event suitable for a trace-corruption control in this run")
+
+
 def seeds_for(chk, n_random=1):
     rnd = random.Random(chk.seed * 7919 + 13)
     out = list(FIXED_SEEDS)
@@ -531,6 +590,8 @@ def execute_and_judge(chk, own, lives, n_fresh, tag):
     chk.note(f"{tag}: {len(lives)} process histories ({len(fresh)} in brand-new interpreters), {len(events)} events "
              f"validated by TLC in {r.wall_s:.1f}s, {len(viol)} rejected registry writes")
     report(chk, own, lives, events, where, viol, texts)
+    if tag != "replay":
+        trace_controls(chk, own, events)
     return lives, events, where, viol
 
 
@@ -550,13 +611,14 @@ def run_c12(chk):
     # spec -> code: histories -------------------------------------------------------------------------------
     rnd = random.Random(chk.seed)
     tmpl = list(meta.QUICK if quick else meta.ALL_TEMPLATES) + ([] if quick else ["demo:" + d for d in meta.demo_names(REPO)])
-    opts = ["default", "complex128", "float32", "sumfact"] if quick else \
+    opts = ["default", "complex128", "sumfact"] if quick else \
         ["default", "complex128", "float32", "complex64", "sumfact", "epsilon", "diagonal", "table_rtol"]
+    # route 9: the second mesh / constant of a template gets id 19 when the first gets 9 ("19" < "9" as strings)
     g = consts(Proc=["p1"], Seed=seeds, Sig=tmpl, Route=[0, 1], Opt=opts, Flag=[], Record=True)
     opt2 = ["default", opts[1 + chk.seed % (len(opts) - 1)]]
     sub = tmpl if quick else rnd.sample(tmpl, 24)
     (h1, r1), (h2, r2), (h3, r3) = run_parallel([
-        lambda: enumerate_histories("c12-enum2", dict(g, MaxEvents=2)),
+        lambda: enumerate_histories("c12-enum2", dict(g, Route=[0, 1, 9], MaxEvents=2)),
         lambda: enumerate_histories("c12-enum3", dict(g, Seed=[0], Sig=sub, Opt=opt2, MaxEvents=3)),
         lambda: simulate_histories("c12-sim", dict(g, Proc=["p1", "p2", "p3"]), 240 if quick else 2400,
                                    36 if quick else 60, chk.seed + 11)])
@@ -572,7 +634,9 @@ def run_c12(chk):
     must += [x for x in cand if len(x["events"]) == 1 and gen0(x["events"][0], "default") and x["seed"] == seeds[1]]
     must += [x for x in cand if len(x["events"]) == 2 and x["seed"] == 0 and x["events"][0] == {"act": "CreateJunk", "kind": "mesh"}
              and gen0(x["events"][1], "default")]
-    lives, seen, spent = select(cand, 80 if quick else 2000, must)
+    must += [x for x in cand if len(x["events"]) == 1 and x["seed"] == 0 and x["events"][0]["act"] == "Generate"
+             and x["events"][0]["route"] == 9 and x["events"][0]["opt"] == "default"]
+    lives, seen, spent = select(cand, 55 if quick else 1500, must)
     chk.add(context_items_covered=len(seen))
     lives, events, where, viol = execute_and_judge(chk, "C12", lives, 24 if quick else 300, "c12")
     _evidence(chk, lives, events, "Generate")
@@ -592,12 +656,14 @@ def _evidence(chk, lives, events, act):
         for _, sub, cx in contexts(x):
             subs.setdefault(sub, set()).add(json.dumps(cx, sort_keys=True))
     n = sum(1 for e in events if e["act"] == act)
+    rejected = {("G", e["tmpl"], e["opt"]) for e in events if str(e.get("sha", "")).startswith("EXC:")}
     chk.add(evaluations=n, subjects=len(subs),
-            distinct_nontrivial=sum(len(v) for v in subs.values() if len(v) > 1),
+            distinct_nontrivial=sum(len(v) for k, v in subs.items() if len(v) > 1 and k not in rejected),
             errors_recorded=sum(1 for e in events if str(e.get("sha", "")).startswith("EXC:") or e.get("error")),
             rule="one case = one (template or request, options, process context) observation, context = (hash seed, "
                  "kinds of unrelated objects created before, compilations before, same subject compiled before, "
-                 "construction route); counted when the same subject was observed in >= 2 distinct contexts",
+                 "construction route); counted when the same subject was observed in >= 2 distinct contexts and code generation "
+                 "did not reject it (e.g. sum factorisation on a simplex)",
             samples=[_abbrev(x) for x in lives[:2] + lives[-3:]])
 
 
